@@ -30,6 +30,18 @@ OPS = [
     (r"\.first\(\)", [".last()"]), (r"\.last\(\)", [".first()"]), (r"first_mut\(\)", ["last_mut()"]), (r"last_mut\(\)", ["first_mut()"]),
     (r"\bSome\((\w+)\)\s=>\s", None),
 ]
+# second wave (ids continue after the first): off-by-one deletions, swapped arguments, dropped error propagation, loop control, orderings
+OPS2 = [
+    (r"\s[-+]\s1\b(?![.\w])", [""]),
+    (r"\((\w+), (\w+)\)", "swap"),
+    (r"\.take\(([^()]+)\)", "take+1"),
+    (r"\bbreak\b", ["continue"]), (r"\bcontinue\b", ["break"]),
+    (r"Ordering::Less", ["Ordering::Greater"]), (r"Ordering::Greater", ["Ordering::Less"]),
+    (r"\.iter\(\)(?=\s*$|\.zip|\.enumerate|\.map)", [".iter().rev()"]),
+    (r"\bwrite_all\b", ["write"]), (r"\bread_exact\b", ["read"]),
+    (r"\.unwrap_or\(None\)", [".unwrap_or(None).or(None)"]),
+]
+DROP_Q = re.compile(r"^(\s*)([^=\n]*\S)\?;\s*$")
 STMT_DELETE = re.compile(r"^\s*(self\.[\w.]+\([^;]*\)|[\w.]+\.(sort|sort_unstable|clear|set_zero|reset|normalize|push|truncate|flush)\([^;]*\));\s*$")
 
 
@@ -64,6 +76,7 @@ def in_string(line, col):
 
 def gen():
     muts = []
+    muts2 = []
     files = []
     for base in ("core/src", "cli/src"):
         for dp, dn, fn in os.walk(os.path.join(REPO, base)):
@@ -89,7 +102,28 @@ def gen():
                             muts.append({"file": rel, "line": ln, "col": m.start(), "old": text, "new": new, "op": "%s -> %s" % (m.group(0).strip(), r.strip())})
             if STMT_DELETE.match(code):
                 muts.append({"file": rel, "line": ln, "col": 0, "old": text, "new": re.sub(r"\S.*$", "();", text, count=1), "op": "delete statement"})
+            if os.environ.get("AUTOMUT_WAVE") == "2":
+                for pat, reps in OPS2:
+                    for m in re.finditer(pat, code):
+                        if in_string(code, m.start()):
+                            continue
+                        if reps == "swap":
+                            if m.group(1) == m.group(2) or m.group(1) in ("self", "mut") or m.group(2) in ("self",):
+                                continue
+                            rr = ["(%s, %s)" % (m.group(2), m.group(1))]
+                        elif reps == "take+1":
+                            rr = [".take(%s + 1)" % m.group(1)]
+                        else:
+                            rr = reps
+                        for r in rr:
+                            new = code[:m.start()] + r + code[m.end():] + text[len(code):]
+                            if new != text:
+                                muts2.append({"file": rel, "line": ln, "col": m.start(), "old": text, "new": new, "op": "%s -> %s" % (m.group(0).strip(), r.strip())})
+                mq = DROP_Q.match(code)
+                if mq and "let " not in code and "return" not in code:
+                    muts2.append({"file": rel, "line": ln, "col": 0, "old": text, "new": "%slet _ = %s;" % (mq.group(1), mq.group(2)), "op": "drop `?`"})
     os.makedirs(ROOT, exist_ok=True)
+    muts = muts + muts2
     for i, m in enumerate(muts):
         m["id"] = i
     json.dump(muts, open(os.path.join(ROOT, "mutants.json"), "w"))
